@@ -13,7 +13,7 @@
    rewrite relation; the skip and squash lemmas by induction on the input), no axioms. *)
 From Coq Require Import List NArith.
 Import ListNotations.
-From PP Require Import Base Syntax Spec SpecSyn SpecMono SpecLaws SpecEquiv Opt OptProof OptSkip Interp InterpProof Gen GenProof OptPass OptPassProof OptPassInline OptPassCompose OptPassIdem OptPassSilent OptPassSkip OptPassHeads OptMono OptPassSilentProof.
+From PP Require Import Base Syntax Spec SpecSyn SpecMono SpecLaws SpecEquiv Opt OptProof OptSkip Interp InterpProof Gen GenProof OptPass OptPassProof OptPassInline OptPassCompose OptPassIdem OptPassSilent OptPassSkip OptPassHeads OptMono OptPassSilentProof OptPassCompose3.
 
 (* `req`: same constructor; on success the same tree and the same final position, stack and tags;
    failure with failure; undefined rule with undefined rule *)
@@ -194,6 +194,16 @@ Theorem C02_inline_silent_pass_preserves_meaning : forall bi order g,
        exists f', req (parse g f' rule input k) r).
 Proof. exact pass_inline_silent_sound. Qed.
 
+(* ---- any subset, order or repetition of the THREE proved passes (unroll, inline built-in, inline silent) ----
+   `psteps3 bi g g'`: g' is obtained from g by any finite sequence of steps, each one of the three passes (the
+   in-place pass with any duplicate-free order). Every step preserves `dom` (OptPassCompose3.pstep3_dom). *)
+Theorem C02_proved_passes_compose : forall bi g g',
+  psteps3 bi g g' -> dom bi g ->
+  forall rule input k, defined_in g rule = true ->
+    (forall f r, parse g f rule input k = r -> r <> Fuel -> exists f', req (parse g' f' rule input k) r) /\
+    (forall f r, parse g' f rule input k = r -> r <> Fuel -> exists f', req (parse g f' rule input k) r).
+Proof. exact psteps3_geq. Qed.
+
 (* ---- what no modelled pass changes ----
    all four modelled passes (unroll, inline built-in, inline silent, and skip, which is tied exactly but whose
    meaning preservation is NOT proved) return the same rules in the same order, each with its
@@ -305,6 +315,7 @@ Print Assumptions C02_modelled_passes_keep_rule_heads.
 Print Assumptions C02_validator_monotone_in_fuel.
 Print Assumptions C02_inline_silent_pass_output_is_validated.
 Print Assumptions C02_inline_silent_pass_preserves_meaning.
+Print Assumptions C02_proved_passes_compose.
 Print Assumptions C02_inline_builtin_pass_output_is_validated.
 Print Assumptions C02_inline_builtin_pass_preserves_meaning.
 Print Assumptions C02_unroll_pass_output_is_validated.
